@@ -118,7 +118,7 @@ def run(rep, tier, driver):
             single = [enc(c["glycan"])] if ("glycan" in c and not (isinstance(c["glycan"], dict) and "none" in c["glycan"])) else []
             req = {"op": "convert", "gen_fn": c["fn"] == "convert_generator",
                    "single": single, "list": [enc(x) for x in c.get("glycan_list", [])] if "glycan_list" in c else None,
-                   "file": [enc(x) for x in apigen.file_lines_spec(c["file_lines"])] if "file_lines" in c else None,
+                   "file": None, "file_content": c.get("file_lines"),       # the Model splits and strips the file content itself
                    "gen": [enc(x) for x in c["generator"]] if "generator" in c else None,
                    "conv": {x: s for x, s in [(w[0], w[1]) for w in want] if isinstance(x, str)}}
             ans = driver.ask(req)
